@@ -107,7 +107,7 @@ func (n *c08Node) boot() error {
 				_ = os.Rename(of, filepath.Join(n.dir, fmt.Sprintf("previous-%d.out", n.boots)))
 			}
 		}
-		d := ctl.NewDaemon(ctl.Cfg{ID: n.id, Dir: n.dir, TCPCtl: true, Listen: true, Work: []ctl.WorkCmd{genWork()}, LogLevel: "error"})
+		d := ctl.NewDaemon(ctl.Cfg{ID: n.id, Dir: n.dir, TCPCtl: true, Listen: true, Work: []ctl.WorkCmd{genWork()}, LogLevel: "error", IgnoreSIGINT: len(n.id) > 0 && (n.id[len(n.id)-1]-'0')%2 == 1})
 		n.dMu.Lock()
 		n.d = d
 		n.dMu.Unlock()
